@@ -378,6 +378,8 @@ class Ctx:
               "assumptions": list(assumptions), "wall_s": round(time.time() - self.t0, 1),
               "violations": violations}
         os.makedirs(VERIF + "/evidence", exist_ok=True)
+        if not re.match(r"^C\d\d$", self.prop):
+            return          # only the listed properties have evidence files
         with open("%s/evidence/%s.json" % (VERIF, self.prop), "w") as f:
             json.dump(ev, f, indent=1)
 
